@@ -57,12 +57,16 @@ def r1(ctx):
         # behind the cursor unexamined - when it is the only free one the allocator reports exhaustion although a port was just released
         its = [t for bb, t in b.calls(re.compile(r"IntoIterator>::into_iter$|^std::iter::IntoIterator::into_iter$"))
                if "field:turmoil::host::Host::ephemeral_ports" in Slicer(ctx.w).atoms(b, t["args"][0])]
+        # `let mut attempts = self.ephemeral_ports.clone(); while attempts.next().is_some() { .. }`: the range itself is the counter
+        for bb, t in b.calls(re.compile(r"RangeInclusive as std::iter::Iterator>::next$")):
+            if "field:turmoil::host::Host::ephemeral_ports" in Slicer(ctx.w).atoms(b, t["args"][0]) and not any(x is t for x in its):
+                its.append(dict(t, _incl=True))
         okn = False
         why = "no loop over the ephemeral range found"
         for t in its:
             ty = b.ty_str(t["at"][0]) if t.get("at") else ""
             at = Slicer(ctx.w).atoms(b, t["args"][0])
-            if "RangeInclusive<" in ty:
+            if "RangeInclusive<" in ty or t.get("_incl"):
                 okn = True
             elif "Range<" in ty:
                 o = origin(b, t["args"][0])
@@ -76,7 +80,9 @@ def r1(ctx):
         # wrap-around: a write of ephemeral_ports.start() to next_ephemeral_port exists under the `== end` test
         wr = [s for bb, i, s in b.all_stmts() if place_last_field(s["p"]) == "turmoil::host::Host::next_ephemeral_port"]
         wraps = any("call:std::ops::RangeInclusive::start" in Slicer(ctx.w).atoms(b, s["r"]["o"]) for s in wr if s["r"]["k"] == "use")
-        ctx.inst(R, "assign_ephemeral_port:wraps", wraps and len(wr) >= 2, b.span, "cursor wraps to the start of the range" if wraps else
+        # one assignment from an `if` expression: `self.next = if candidate == last { first } else { candidate + 1 }`
+        two = len(wr) >= 2 or any(s["r"]["k"] == "use" and op_place(s["r"]["o"]) is not None and len(b.defs().get(op_place(s["r"]["o"])["l"], [])) >= 2 for s in wr)
+        ctx.inst(R, "assign_ephemeral_port:wraps", wraps and two, b.span, "cursor wraps to the start of the range" if wraps else
                  "cursor no longer wraps to ephemeral_ports.start()")
     t = ctx.body(R, "turmoil::host::Tcp::is_port_assigned")
     if t:
@@ -309,6 +315,16 @@ def r4(ctx):
                         cb = ctx.w.bodies.get(cid)
                         if cb and any(True for _ in cb.calls("turmoil::ip::IpVersionAddrIter::next")):
                             ok = True
+                if not ok:
+                    # `match names.entry(name) { Occupied(known) => *known.get(), Vacant(slot) => *slot.insert(next free address) }`
+                    for sbb, m, els, adt, pl in variant_edges(b, lambda p: True):
+                        if adt != "indexmap::map::Entry" or "Vacant" not in m or "Occupied" not in m:
+                            continue
+                        ins = [x for x, t3 in b.calls(re.compile(r"^indexmap::map::VacantEntry::insert(_entry)?$"))
+                               if "call:turmoil::ip::IpVersionAddrIter::next" in Slicer(ctx.w).atoms(b, t3["args"][1])]
+                        occ = b.reachable(m["Occupied"][1])
+                        draws = [x for x, _ in b.calls("turmoil::ip::IpVersionAddrIter::next")]
+                        ok = bool(ins) and all(b.dominated_by_edge(x, m["Vacant"]) for x in ins + draws) and not any(x in occ for x in ins + draws)
                 ctx.inst(R, k, ok, t["s"], "name gets the next address on first sight and keeps it" if ok else
                          "names.entry(..) is not completed by or_insert_with(|| addrs.next()): a known name can be re-mapped or two names share an address")
             else:
